@@ -496,7 +496,7 @@ func c15GenVal(t *rapid.T, depth int, label string) interface{} {
 	case 1:
 		return rapid.SampledFrom(c15StrPool).Draw(t, label+"s")
 	case 2:
-		return rapid.Int64Range(-(1 << 53), 1<<53).Draw(t, label+"i")
+		return rapid.Int64Range(-(1<<53), 1<<53).Draw(t, label+"i")
 	case 3:
 		return rapid.Bool().Draw(t, label+"b")
 	case 4:
@@ -937,15 +937,22 @@ func c15GenCaseB(t *rapid.T) *c15CaseB {
 			// derived from a file that exists: its base name, its path, its top directory, a glob over its extension
 			f := rapid.SampledFrom(c.Files).Draw(t, "ruleFile").Name
 			parts := strings.Split(f, "/")
-			switch rapid.IntRange(0, 4).Draw(t, "derive") {
+			switch rapid.IntRange(0, 7).Draw(t, "derive") {
 			case 0:
 				line = parts[len(parts)-1]
-			case 1:
+			case 1, 5:
 				line = "/" + f
 			case 2:
 				line = parts[0] + "/"
-			case 3:
+			case 3, 6:
 				line = f
+			case 7:
+				// everything in the file's directory
+				if len(parts) > 1 {
+					line = strings.Join(parts[:len(parts)-1], "/") + "/*"
+				} else {
+					line = "/" + f
+				}
 			default:
 				if i := strings.LastIndex(f, "."); i > 0 {
 					line = "*" + f[i:]
